@@ -75,6 +75,8 @@ structure St where
   closer : CPc := .idle
   /-- ghost: real-time log of invocations and responses, for the linearizability statement -/
   log : List (Tid × Bool × Nat) := []     -- (thread, isResponse, lastSeq at that moment)
+  /-- ghost: the commit groups in commit order (`committed = groups.flatten`), for the group-atomicity statement -/
+  groups : List (List Nat) := []
   deriving Repr
 
 def getW (st : St) (t : Tid) : Option Writer := st.writers.find? (·.tid == t)
@@ -106,6 +108,7 @@ inductive RoomChoice where
   | delay                      -- L0 slowdown: unlock, sleep 1 ms, lock again (at most once per write)
   | waitFlush                  -- memtable full and imm still being flushed: wait on background_work_finished
   | waitL0                     -- too many level-0 files: wait on background_work_finished
+  | switchFail                 -- the memtable switch happens, but closing the old log file failed: bg_error recorded, write fails
   | begin (switch : Bool) (group : Nat)   -- (optionally switch memtables first) then lead a group of `group` queued writers
   deriving Repr, DecidableEq
 
@@ -125,22 +128,36 @@ inductive Label where
   | closeWake
   deriving Repr, DecidableEq
 
+/-- "notify new head of write queue": signal the cv of the writer that is now at the front, if any -/
+def signalHead (st : St) : St :=
+  match st.queue with | h :: _ => signalW st h | [] => st
+
+/-- the head writer gives up with an error: it pops itself (it is its own `last_writer`), wakes the next head and
+    returns the error (ldb_write after a failed ldb_make_room_for_write) -/
+def failAct (st : St) (w : Writer) : St :=
+  signalHead (setW { st with queue := st.queue.drop 1, log := st.log ++ [(w.tid, true, st.lastSeq)] } { w with pc := .returned false })
+
 /-- the head writer's continuation inside a critical section (mutex held, `w` is the head, not done) -/
 def headAct (st : St) (w : Writer) (c : RoomChoice) : Option St :=
   if st.bgError then
     -- make_room yields the background error; the writer pops itself, wakes the next head, returns the error
-    if c != .fail then none else
-    let q := st.queue.drop 1
-    let st := setW { st with queue := q, log := st.log ++ [(w.tid, true, st.lastSeq)] } { w with pc := .returned false }
-    some (match q with | h :: _ => signalW st h | [] => st)
+    if c != .fail then none else some (failAct st w)
   else match c with
-  | .fail => none
+  | .fail =>
+    -- creating the new log file for a memtable switch failed (db_impl.c:1843): make_room returns the error WITHOUT
+    -- setting bg_error; possible only when a switch is attempted, i.e. when there is no immutable memtable
+    if st.imm then none else some (failAct st w)
   | .delay =>
     if w.usedDelay then none else some (setW st { w with pc := .delayed, usedDelay := true })
   | .waitFlush =>
     if st.imm then some (setW st { w with pc := .asleepBg }) else none
   | .waitL0 =>
     if st.needsCompaction then some (setW st { w with pc := .asleepBg }) else none
+  | .switchFail =>
+    -- the switch to a new memtable is carried out, but closing the old log file failed (db_impl.c:1853-1863):
+    -- ldb_record_background_error sets bg_error and broadcasts, imm := mem, ldb_maybe_schedule_compaction does nothing
+    -- (bg_error), and the next round of the loop yields the error: the write fails like in the `.fail` case
+    if st.imm then none else some (failAct (broadcastBg { st with imm := true, bgError := true }) w)
   | .begin switch group =>
     -- a switch needs the previous immutable memtable to be gone
     if switch && st.imm then none
@@ -151,6 +168,27 @@ def headAct (st : St) (w : Writer) (c : RoomChoice) : Option St :=
       -- ldb_build_batch_group never lets a sync writer join a non-sync leader's group
       if !w.sync && members.any (fun m => match getW st m with | some x => x.sync && x.tid != w.tid | none => true) then none
       else some (setW { st with inflight := members } { w with pc := .io })
+
+/-- the leader hands the result to one follower: done := 1, status, signal its cv -/
+def followStep (ok : Bool) (st : St) (m : Tid) : St :=
+  match getW st m with
+  | some f => signalW (setW st { f with done := true, status := ok }) m
+  | none => st
+
+/-- the leader after its I/O (mutex re-acquired): publish, hand over to the followers, pop the group, wake the next head -/
+def commitAct (st : St) (w : Writer) (syncFailed : Bool) : St :=
+  let group := st.inflight
+  let ok := !syncFailed
+  -- sequence published for the whole group at once; batches in queue order
+  let batches := group.filterMap fun m => (getW st m).map (·.batch)
+  let st := if ok then { st with lastSeq := st.lastSeq + group.length, committed := st.committed ++ batches,
+                                 groups := st.groups ++ [batches] } else st
+  -- ldb_record_background_error broadcasts background_work_finished (db_impl.c:1106)
+  let st := if syncFailed then broadcastBg { st with bgError := true } else st
+  let st := { st with queue := st.queue.drop group.length, inflight := [] }
+  -- followers: done := 1, status, signal
+  let st := (group.drop 1).foldl (followStep ok) st
+  signalHead (setW { st with log := st.log ++ [(w.tid, true, st.lastSeq)] } { w with pc := .returned ok })
 
 def step (st : St) : Label → Option St
   | .wEnter t c =>
@@ -177,21 +215,7 @@ def step (st : St) : Label → Option St
     match getW st t with
     | some w =>
       if w.pc != .io || st.inflight.head? != some t then none else
-      let group := st.inflight
-      let ok := !syncFailed
-      -- sequence published for the whole group at once; batches in queue order
-      let batches := group.filterMap fun m => (getW st m).map (·.batch)
-      let st := if ok then { st with lastSeq := st.lastSeq + group.length, committed := st.committed ++ batches } else st
-      -- ldb_record_background_error broadcasts background_work_finished (db_impl.c:1106)
-      let st := if syncFailed then broadcastBg { st with bgError := true } else st
-      let st := { st with queue := st.queue.drop group.length, inflight := [] }
-      -- followers: done := 1, status, signal
-      let st := (group.drop 1).foldl (fun st m =>
-        match getW st m with
-        | some f => signalW (setW st { f with done := true, status := ok }) m
-        | none => st) st
-      let st := setW { st with log := st.log ++ [(t, true, st.lastSeq)] } { w with pc := .returned ok }
-      some (match st.queue with | h :: _ => signalW st h | [] => st)
+      some (commitAct st w syncFailed)
     | none => none
   | .rCapture t =>
     match getR st t with
@@ -215,7 +239,10 @@ def step (st : St) : Label → Option St
     if st.bg != .posted then none else some { st with bg := .working }
   | .bgMid flushDone bcast err =>
     if st.bg != .working then none
-    else if st.shuttingDown || st.bgError then none      -- no work is done after shutdown / an error: only `bgFinish` remains
+    -- no work is done after an error, and none after shutdown -- except that a worker that was in the middle of its work
+    -- when `close` set shutting_down records the error "deleting DB during compaction" (db_impl.c:1137, 1441, 1478);
+    -- after that only `bgFinish` remains
+    else if st.bgError || (st.shuttingDown && (flushDone || !err)) then none
     else if flushDone && !st.imm then none
     else
       let st := if flushDone then { st with imm := false } else st
@@ -249,6 +276,13 @@ def allDone (st : St) : Bool :=
   st.writers.all (fun w => match w.pc with | .idle => true | .returned _ => true | _ => false) &&
   st.readers.all (fun r => match r.pc with | .idle => true | .returned _ => true | _ => false) &&
   (st.closer == .idle || st.closer == .returned)
+
+/-- the labels that start a new operation (everything else continues one that is already in flight) -/
+def isInvocation : Label → Bool
+  | .wEnter .. => true
+  | .rCapture .. => true
+  | .close => true
+  | _ => false
 
 /-- run a list of labels -/
 def run (st : St) : List Label → Option St
